@@ -157,6 +157,20 @@ CHECKS = {
              "finite placeholder times weight 0 is an exact zero - observed on the implementation). Out-of-int16 curves are dropped and "
              "counted. Axioms: real-number axioms for the V-curve theorem; the carrier-generic theorems are closed.",
         technique="Coq proof (carrier-generic structural independence + exact-arithmetic independence lemmas) + metamorphic runs + bit-exact correspondence"),
+    "C06": dict(
+        cat="proof",
+        text="Theorems (Props/C06.v, reals): from the variational characterisation of C01 (not from the elimination order) the Whittaker "
+             "solution returns an affine series as that line on all cells (gaps included), commutes with adding a constant and with "
+             "reversing time, for every n >= 4, weights with two positive entries and lambda > 0; ws2dgu returns exactly linear series "
+             "unchanged; half-even rounding commutes with integer offsets except on ties (then within one). For the selecting, asymmetric "
+             "and robust variants the three relations are run on the implementation (linear series with gaps, offsets in [-4000,4000], "
+             "reversal incl. a smooth-series-with-end-outlier family) for all 9 variant configurations, with the property's tie rules, and "
+             "every run is compared bit-for-bit with the models.",
+        ref="7 (C06)",
+        note="Partial: the lifting of the offset / reversal laws through lambda selection (V-curve, GCV), the asymmetric reweighting and "
+             "the robust weights is not proved, only checked on the implementation. Tie rules: +-1 on at most max(1, n/50) cells per "
+             "pair; a different lambda only when the re-computed criterion is tied to 1e-6. Axioms: real-number axioms of the standard library.",
+        technique="Coq proof from the variational characterisation + metamorphic runs on the implementation + bit-exact correspondence"),
 }
 
 PENDING = "no check has been built for this property yet (work in progress; see DESIGN.md section 7 for the plan)"
